@@ -458,6 +458,13 @@ class Path(object):
         else:
             rec['result'] = 'unknown'
             self.inconclusive = True
+            dd = os.environ.get('DFVERIF_DUMP_UNKNOWN')     # development aid
+            if dd:
+                s3 = z3.Solver()
+                s3.add(self.solver.assertions())
+                s3.add(z3.Not(term))
+                with open(os.path.join(dd, '%s-%d-%d.smt2' % (label.replace(':', '_').replace('/', '_'), os.getpid(), len(self.obls))), 'w') as f_:
+                    f_.write(s3.to_smt2())
         self.obls.append(rec)
         return rs == 'unsat'
 
